@@ -133,8 +133,10 @@ deriving Repr, DecidableEq
 
 /-- `get(k, …)`; `static` is the resolver's `ResolveStaticAddress` answer, `hasResolver` whether the
     network protocol has a resolver at all -/
-def Cache.get (c : Cache) (k : Key) (static : Option Mac) (hasResolver : Bool) (localAddr : Addr) (proto : Nat) :
-    Option (Cache × GetRes × List Out) :=
+def Cache.get (c : Cache) (k : Key) (static : Option Mac) (hasResolver : Bool) (localAddr : Addr) (proto : Nat)
+    (observedWaker : Bool := true) : Option (Cache × GetRes × List Out) :=
+  -- a waker nobody sleeps on (UDP's write path) is registered like any other but its wake-up is unobservable
+  let w1 : Nat := if observedWaker then 1 else 0
   match static with
   | some m => some (c, .addr m, [])
   | none =>
@@ -146,7 +148,7 @@ def Cache.get (c : Cache) (k : Key) (static : Option Mac) (hasResolver : Bool) (
         match c1.slots[i]? with
         | none => none
         | some e =>
-          let c2 := (c1.setSlot i { e with waiters := e.waiters + 1 }).cancel
+          let c2 := (c1.setSlot i { e with waiters := e.waiters + w1 }).cancel
           let r : Res := ⟨k, e.gen, 0, c2.now + c2.timeout, localAddr, proto⟩
           some ({ c2 with pending := c2.pending ++ [r] }, .wouldBlock, o0 ++ o1 ++ [.request k localAddr proto])
     match c.lookup k with
@@ -162,7 +164,7 @@ def Cache.get (c : Cache) (k : Key) (static : Option Mac) (hasResolver : Bool) (
           | .expired => startNew c0.cancel o0
           | .ready => some (c0.cancel, .addr e.link, o0)
           | .failed => some (c0.cancel, .noLinkAddr, o0)
-          | .incomplete => some (c0.setSlot i { e with waiters := e.waiters + 1 }, .wouldBlock, o0)
+          | .incomplete => some (c0.setSlot i { e with waiters := e.waiters + w1 }, .wouldBlock, o0)
 
 /-- the timer of a resolution goroutine fires: `checkLinkRequest(k, attempt)` and, if it goes on, the next request -/
 def Cache.fire (c : Cache) (r : Res) : Option (Cache × List Out) :=
